@@ -59,6 +59,7 @@ func TestMain(m *testing.M) {
 			{ID: kfHashResidual, Present: probeHashJoinResidual},
 			{ID: kfMixedJoin, Present: probeMixedHashJoin},
 			{ID: kfNullRange, Present: probeTypedNullRange},
+			{ID: kfGroupNulls, Present: probeGroupNullsOrder},
 		},
 	})
 }
@@ -453,6 +454,25 @@ func probeTypedNullRange() (bool, string) {
 	return false, ""
 }
 
+// probeGroupNullsOrder: when the ORDER BY is merged into the GROUP BY sort, NULLS FIRST/LAST is lost.
+func probeGroupNullsOrder() (bool, string) {
+	db, done, err := probeDB(sqlgen.DBOpts{},
+		"CREATE TABLE t (id INTEGER, a INTEGER, PRIMARY KEY id)",
+		"INSERT INTO t (id, a) VALUES (1, NULL), (2, 1)")
+	if err != nil {
+		return false, ""
+	}
+	defer done()
+	r, err := db.Query("SELECT a, id, COUNT(*) FROM t GROUP BY a, id ORDER BY a DESC NULLS FIRST", nil)
+	if err != nil {
+		return false, ""
+	}
+	if d := r.Unsorted([]sqlgen.OrdKey{{Pos: 0, Desc: true, Nulls: "FIRST"}}); d != "" {
+		return true, fmt.Sprintf("a = NULL, 1: SELECT a, id, COUNT(*) FROM t GROUP BY a, id ORDER BY a DESC NULLS FIRST returns %v", r.Keys())
+	}
+	return false, ""
+}
+
 // probeInTxDup: two rows written by the open transaction with the same value in an indexed
 // column share one transient index entry; the index scan inside the transaction sees one of them.
 func probeInTxDup() (bool, string) {
@@ -513,6 +533,9 @@ func queryOpts() sqlgen.QueryOpts {
 	if vk.Excluded(kfOrdPos) {
 		qo.NoOrderByPosition = true
 	}
+	if vk.Excluded(kfGroupNulls) {
+		qo.NoNullsOrderGrouped = true
+	}
 	if vk.Excluded(kfJoinOrder) {
 		qo.NoJoinedOrderClash = true
 	}
@@ -539,6 +562,8 @@ func queryOpts() sqlgen.QueryOpts {
 	}
 	qo.OnExclude = func(what string) {
 		switch {
+		case strings.HasPrefix(what, "NULLS FIRST/LAST with GROUP BY"):
+			vk.CountExcluded(kfGroupNulls)
 		case strings.HasPrefix(what, "ORDER BY <position>"):
 			vk.CountExcluded(kfOrdPos)
 		case strings.HasPrefix(what, "ORDER BY joined"):
